@@ -5,6 +5,7 @@ import numpy as np
 
 from ..gen import cards
 from ..oracle import lineshape as ls
+from .c15_more import MORE_MODELS, run_more
 
 LEVEL = "exploration"
 SHARDS = {"quick": 8, "thorough": 16}
@@ -22,12 +23,20 @@ ASSUMPTIONS = [
     "reference formulas transcribed from the docstrings (vh/oracle/lineshape.py + this file), Blatt-Weisskopf from the reverse-Bessel recurrence",
     "MultiBWR has no closed formula in its documentation: judged by identities (one unit coefficient equals BWR2 x barrier, linearity, zero coefficient)",
     "tolerance 1e-10 relative to |R| (1e-8 for sympy/mpmath evaluations)",
+    "second part (c15_more.py): LASS, FlatteGen, Flatte2 (all documented options), KMatrixSingleChannel, KmatrixSimple, MultiBW and the interpolation "
+    "family (interp, interp_c, linear_npy, linear_txt, spline_c, spline_c_idx, interp_lagrange, interp1d3, interp_hist, hist_idx, sppchip) against "
+    "NumPy/SciPy transcriptions of their docstrings; the interpolation models are registered by importing tf_pwa.amp.interpolation",
+    "not judged: Kmatrix, KMatrixSplitLS, interp_l3 (docstring gives no formula or leaves its symbols undefined), Kpi_Swave / pipi_Swave "
+    "(documentation refers to external AmpGen sources that are not available offline); masses exactly on an interpolation point or bin edge "
+    "(half-open conventions are not documented)",
 ]
 REQUIRE = {
     "monitors": {"bare BW family == formula": 30, "generic BW clauses": 30, "barrier factors": 30, "model == documented formula": 40,
-                 "sympy denominator == 1/shape": 8},
+                 "sympy denominator == 1/shape": 8, "model == documented formula (more models)": 40, "interpolant passes through its points": 10,
+                 "sppchip monotone in each interval": 2},
     "cover": {"model": ["BW", "default", "BWR2", "BWR_below", "BWR_normal", "BWR_coupling", "BWR_LS", "BWR_LS2", "MultiBWR", "GS_rho",
-                        "Flatte", "FlatteC", "one", "exp", "exp_com", "x"], "BWR_LS_waves": [2, 3], "bw_l": ["explicit 0", "from the decay"]},
+                        "Flatte", "FlatteC", "one", "exp", "exp_com", "x"] + MORE_MODELS, "BWR_LS_waves": [2, 3], "bw_l": ["explicit 0", "from the decay"],
+              "interp_with_bound": [True, False], "interp_grid": ["uniform", "non-uniform"]},
     "min_nontrivial": 60,
 }
 LEVEL_TEXT = ("Differential runtime monitor: the bare line-shape/barrier functions and Particle.__call__(m) of every registered model with a "
@@ -147,6 +156,9 @@ def run(ctx):
         ctx.covered("L", L)
         if i < 2:
             ctx.sample({"section": "bare", **desc, "m": m[5], "BWR_lib": np.asarray(bw.BWR(T(m[5:6]), m0, g0, T(q[5:6]), q0, L, d))[0], "BWR_ref": ls.BWR(m[5], m0, g0, m1, m2, L, d)})
+
+    # ------------------------------------------------------------ (4) the other registered models with a documented formula
+    run_more(ctx)
 
     # ------------------------------------------------------------ (2) registered models through ConfigLoader
     n_m = ctx.pick(len(MODELS) * 4, len(MODELS) * 60)
